@@ -7,7 +7,7 @@ use crate::bridge::{self, observe, Obs};
 use crate::engine::{self, fp, Cfg, Ctx, EvidenceSpec, Violation};
 use crate::gen::{self, RawHist, Tape};
 use crate::refmodel::*;
-use chess::{Board, MoveGen};
+use chess::{BitBoard, Board, MoveGen, EMPTY};
 use serde_json::{json, Value};
 
 fn pos_of_obs(o: &Obs) -> Pos {
@@ -63,8 +63,51 @@ fn check_edge(ctx: &mut Ctx, a: &Obs, b: &Obs, case: &dyn Fn() -> Value) -> Resu
     Ok(())
 }
 
-fn sorted_lib_moves(b: &Board) -> Vec<Mv> {
-    let mut v: Vec<Mv> = MoveGen::new_legal(b).map(bridge::rmv).collect();
+/// The moves the library generates for `b`, obtained through one of the ways a program obtains
+/// them (`sel` picks): one pass; captures first and then the rest (the documented staged idiom);
+/// three stages with a generated middle mask; the four board quarters in a rotated order and then
+/// everything; `Board::enumerate_moves`. Every mask is iterated to exhaustion. Duplicates are
+/// folded (exactly-once is C14's business): this is the set of moves play may continue with.
+fn sorted_lib_moves(b: &Board, sel: u64) -> Vec<Mv> {
+    let mut v: Vec<Mv> = vec![];
+    match sel % 8 {
+        0 | 1 | 2 => v.extend(MoveGen::new_legal(b).map(bridge::rmv)),
+        3 | 4 => {
+            let mut g = MoveGen::new_legal(b);
+            g.set_iterator_mask(*b.color_combined(!b.side_to_move()));
+            v.extend((&mut g).map(bridge::rmv));
+            g.set_iterator_mask(!EMPTY);
+            v.extend(g.map(bridge::rmv));
+        }
+        5 => {
+            let mut g = MoveGen::new_legal(b);
+            g.set_iterator_mask(*b.color_combined(!b.side_to_move()));
+            v.extend((&mut g).map(bridge::rmv));
+            let x = sel >> 3;
+            let mid = [0x0000_00FF_FF00_0000u64, 0xFF00_0000_0000_00FF, 0x3C3C_3C3C_3C3C_3C3C, 0x55AA_55AA_55AA_55AA][(x % 4) as usize];
+            g.set_iterator_mask(BitBoard::new(mid));
+            v.extend((&mut g).map(bridge::rmv));
+            g.set_iterator_mask(!EMPTY);
+            v.extend(g.map(bridge::rmv));
+        }
+        6 => {
+            let mut g = MoveGen::new_legal(b);
+            let q = [0x0000_0000_0F0F_0F0Fu64, 0x0000_0000_F0F0_F0F0, 0x0F0F_0F0F_0000_0000, 0xF0F0_F0F0_0000_0000];
+            let r = (sel >> 3) as usize;
+            for i in 0..4 {
+                g.set_iterator_mask(BitBoard::new(q[(i + r) % 4]));
+                v.extend((&mut g).map(bridge::rmv));
+            }
+            g.set_iterator_mask(!EMPTY);
+            v.extend(g.map(bridge::rmv));
+        }
+        _ => {
+            let mut arr = [chess::ChessMove::default(); 256];
+            #[allow(deprecated)]
+            let n = b.enumerate_moves(&mut arr);
+            v.extend(arr[..n.min(256)].iter().map(|m| bridge::rmv(*m)));
+        }
+    }
     v.sort();
     v.dedup();
     v
@@ -122,7 +165,7 @@ fn playout(ctx: &mut Ctx, start: &Pos, explicit: Option<&[Mv]>, tape: Option<&mu
                 }
             }
         }
-        let moves = sorted_lib_moves(&board);
+        let moves = sorted_lib_moves(&board, fp(&(start, &played)));
         if moves.is_empty() {
             ctx.class("playout:ended-terminal");
             break;
@@ -204,7 +247,7 @@ fn tree(ctx: &mut Ctx, start: &Pos, depth: usize, node_cap: u64) -> Result<u64, 
         if depth == 0 || *nodes >= cap {
             return Ok(());
         }
-        for m in sorted_lib_moves(b) {
+        for m in sorted_lib_moves(b, fp(&(start, &*path))) {
             path.push(m);
             let nb = bridge::advance(b, bridge::mv(m), path.len() as u64 + *nodes, b);
             let no = observe(&nb);
@@ -282,7 +325,7 @@ pub fn run(cfg: &Cfg) -> i32 {
     engine::finish(
         report,
         EvidenceSpec {
-            rule: "cases = (a) long playouts (up to 400 plies or termination) choosing among the library's own generated moves, from curated and directly set-up valid starts, (b) complete trees of the library's generated moves to depth 2 from every curated position and depth 3-4 (quick) / 4-5 (thorough, by branching factor; capped at 400k nodes) from generated mid-game positions; every node is checked for king count, mover not left in check (reference attack test on the library's placement), no pawn on ranks 1/8, is_sane(), and every edge for monotone castling rights, men and pawns. evaluations = nodes. Non-trivial = a playout containing a capture, a promotion and a rights change, or a complete tree of depth >= 3; distinct = fingerprints of (start, moves) / (root, depth).".into(),
+            rule: "cases = (a) long playouts (up to 400 plies or termination) choosing among the library's own generated moves (obtained, varying along the history, in one pass, by the staged captures-first idiom, through three or five destination masks each iterated to exhaustion, or from enumerate_moves), from curated and directly set-up valid starts, (b) complete trees of the library's generated moves to depth 2 from every curated position and depth 3-4 (quick) / 4-5 (thorough, by branching factor; capped at 400k nodes) from generated mid-game positions; every node is checked for king count, mover not left in check (reference attack test on the library's placement), no pawn on ranks 1/8, is_sane(), and every edge for monotone castling rights, men and pawns. evaluations = nodes. Non-trivial = a playout containing a capture, a promotion and a rights change, or a complete tree of depth >= 3; distinct = fingerprints of (start, moves) / (root, depth).".into(),
             assumptions: vec!["reference attack detection (ray walking) decides 'left in check'".into()],
             trusted_base: vec!["harness/src/refmodel.rs (attacks only)".into(), "proptest 1.11".into()],
             exhaustive: None,
